@@ -25,9 +25,14 @@ type SourceMap struct {
 }
 
 func (sm *SourceMap) AddSymbolRange(src Range, tgt Range) {
-	sm.SourceSymbolRangeToTarget[src.From.Line] = make(map[uint32]Range)
+	// Several symbols can start on one line: keep the ones recorded before.
+	if sm.SourceSymbolRangeToTarget[src.From.Line] == nil {
+		sm.SourceSymbolRangeToTarget[src.From.Line] = make(map[uint32]Range)
+	}
 	sm.SourceSymbolRangeToTarget[src.From.Line][src.From.Col] = tgt
-	sm.TargetSymbolRangeToSource[tgt.From.Line] = make(map[uint32]Range)
+	if sm.TargetSymbolRangeToSource[tgt.From.Line] == nil {
+		sm.TargetSymbolRangeToSource[tgt.From.Line] = make(map[uint32]Range)
+	}
 	sm.TargetSymbolRangeToSource[tgt.From.Line][tgt.From.Col] = src
 }
 
